@@ -117,6 +117,26 @@ def exec_lattice(item):
                     winner = [lvl for lvl in LEVELS if lvl in assign][-1] if assign else "default"
                     r.violations.append({"key": ("lattice", "effective_value_is_not_the_highest_priority_one", attr if attr in GEN_VALUES else "option", f"set={'+'.join(sorted(assign))}:expected_from={winner}"),
                                          "detail": {"rule": rid, "attr": attr, "config": cfg, "expected": exp, "reported": got, "acted_on": acted}, "item": dict(item, attr=attr, combo=list(combo), group=group)})
+    # the per-file level with the file named in a non-normalised spelling (the configuration key is matched as written)
+    d, b = os.path.split(path)
+    for alt in (d + "/./" + b, d + "//" + b, os.path.join(d, "sub", "..", b)):
+        for combo in ((None, None, 1, 0), (1, None, None, 0)):
+            assign = {lvl: GEN_VALUES["disable"][c] for lvl, c in zip(LEVELS, combo) if c is not None}
+            cfg = build_cfg(rid, None, "disable", assign)
+            cfg["file_rules"] = [{alt: {"rule": {rid: {"disable": assign["file"]}}}}]
+            oc = copy.copy(cfg0)
+            oc.dConfig = dict(cfg0.dConfig, **cfg)
+            rule = cls()
+            rl.rules = [rule]
+            r.transitions += 1
+            try:
+                _ar.configure_rules(oc, rl, oc.dConfig, 0, alt)
+            except Exception:  # noqa
+                continue
+            if rule.disable != assign["file"]:
+                r.violations.append({"key": ("lattice", "per_file_entry_ignored_for_non_normalised_file_name", alt[len(d):].replace(b, "F")), "detail": {"rule": rid, "file_name": alt, "config": cfg},
+                                     "item": dict(item, attr="disable", alt=alt)})
+                break
     r.nontrivial = rid if fired else None
     r.states.add(base.h64(rid))
     if rid.endswith("_001") and rid.startswith("a"):
@@ -149,6 +169,18 @@ def exec_merge(item):
             r.violations.append({"key": ("merge", "later_file_drops_attribute_set_by_earlier_file" if fa != sa else "later_file_does_not_override", "same_attr" if fa == sa else "different_attrs"),
                                  "detail": {"file1": d1, "file2": d2, "merged_entry": eff, "expected": exp}, "item": item})
             break
+    # the same at the global and at the group level (one level deeper in the file)
+    inv = configs_k1.inventory()[rid]
+    for level, wrap in (("global", lambda d: {"rule": {"global": d}}), ("group", lambda d: {"rule": {"group": {(inv["groups"] or ["x"])[0]: d}}})):
+        d1, d2 = wrap({"disable": True}), wrap({"fixable": False})
+        for x, y in ((d1, d2), (d2, d1)):
+            merged = _config.process_config_file(copy.deepcopy({"rule": {}}), copy.deepcopy(x), "f1")
+            merged = _config.process_config_file(merged, copy.deepcopy(y), "f2")
+            r.transitions += 1
+            node = merged["rule"]["global"] if level == "global" else merged["rule"]["group"][(inv["groups"] or ["x"])[0]]
+            if node != {"disable": True, "fixable": False}:
+                r.violations.append({"key": ("merge", "later_file_drops_attribute_set_by_earlier_file", level), "detail": {"file1": x, "file2": y, "merged": merged["rule"]}, "item": item})
+                return r
     r.nontrivial = item["id"]
     return r
 
